@@ -8,12 +8,14 @@ set -u
 export CARGO_NET_OFFLINE=true
 cd /verif/sim
 SEED="${VERIF_SEED:-20260101}"
-RATE=0.05
-run_miri() { # <flags> <workload seed> -> log on stdout, miri's status
-  MIRIFLAGS="$1 -Zmiri-preemption-rate=$RATE" cargo +nightly miri run --offline --bin verifsim_mt -- miri-scenario "$2" 2>&1
+# two preemption rates: a high one reaches races between neighbouring instructions (torn pairs of
+# atomics), a low one lets a thread run long enough to reach the other end of a lock-order cycle
+RATES=(0.05 0.004)
+run_miri() { # <flags> <workload seed> <rate> -> log on stdout, miri's status
+  MIRIFLAGS="$1 -Zmiri-preemption-rate=$3" cargo +nightly miri run --offline --bin verifsim_mt -- miri-scenario "$2" 2>&1
 }
 if [ "${1:-}" = "replay" ]; then
-  run_miri "-Zmiri-seed=$3" "$2"
+  run_miri "-Zmiri-seed=$3" "$2" "${4:-0.05}"
   exit $?
 fi
 tier="${1:-thorough}"
@@ -24,29 +26,37 @@ ok=0
 (cd /verif/sim && cargo +nightly miri run --offline --bin verifsim_mt -- miri-noop > /verif/target/miri-build.log 2>&1) || { echo "{\"ran\": false, \"reason\": \"miri build failed, see /verif/target/miri-build.log\"}"; exit 2; }
 PAR="${VERIF_MIRI_PAR:-3}"
 rm -f /verif/target/miri-[0-9]*.log /verif/target/miri-[0-9]*.code
-i=1
-while [ $i -le "$W" ]; do
+# units of work: (workload seed, rate index); each interprets N/2 schedule seeds
+units=()
+for i in $(seq 1 "$W"); do for r in 0 1; do units+=("$i:$r"); done; done
+H=$(( (N + 1) / 2 ))
+u=0
+while [ $u -lt ${#units[@]} ]; do
   pids=()
   for j in $(seq 1 "$PAR"); do
-    [ $i -le "$W" ] || break
+    [ $u -lt ${#units[@]} ] || break
+    i=${units[$u]%%:*}; r=${units[$u]##*:}
     ws=$(( (SEED % 1000000) * 100 + i ))
-    ( run_miri "-Zmiri-many-seeds=0..$N" "$ws" > /verif/target/miri-$ws.log; echo $? > /verif/target/miri-$ws.code ) &
+    lo=$(( r * H )); hi=$(( lo + H ))
+    ( run_miri "-Zmiri-many-seeds=$lo..$hi" "$ws" "${RATES[$r]}" > /verif/target/miri-$ws-$r.log; echo $? > /verif/target/miri-$ws-$r.code ) &
     pids+=($!)
-    i=$((i+1))
+    u=$((u+1))
   done
   wait "${pids[@]}"
 done
-for i in $(seq 1 "$W"); do
+for unit in "${units[@]}"; do
+  i=${unit%%:*}; r=${unit##*:}
   ws=$(( (SEED % 1000000) * 100 + i ))
-  log=/verif/target/miri-$ws.log
-  code=$(cat /verif/target/miri-$ws.code 2>/dev/null || echo 99)
+  log=/verif/target/miri-$ws-$r.log
+  rate=${RATES[$r]}
+  code=$(cat /verif/target/miri-$ws-$r.code 2>/dev/null || echo 99)
   if [ "$code" -ne 0 ]; then
     failing=$(grep -o "FAILING SEED: [0-9]*" "$log" | grep -o "[0-9]*" | sort -n | tr '\n' ' ')
     if grep -qE "VIOLATION property=C15|Undefined Behavior|Data race detected|data race|deadlock" "$log"; then
       first=$(echo $failing | cut -d' ' -f1)
-      python3 - "$ws" "$first" "$failing" "$log" <<'PY'
+      python3 - "$ws" "$first" "$failing" "$log" "$rate" <<'PY'
 import json,sys
-ws,first,failing,log=sys.argv[1:5]
+ws,first,failing,log,rate=sys.argv[1:6]
 text=open(log).read()
 keep=[]
 for l in text.splitlines():
@@ -55,7 +65,7 @@ for l in text.splitlines():
 keep=keep[:20]
 cls="data-race-or-ub" if ("Undefined Behavior" in text or "ata race" in text) else ("deadlock" if ("deadlock" in text and "VIOLATION property=C15" not in text) else "concurrent!=sequential")
 json.dump({"property":"C15","engine":"miri","class":cls,"workload_seed":int(ws),"miri_seed":int(first or 0),
- "failing_miri_seeds":[int(x) for x in failing.split()],"replay":"tools/miri_engine.sh replay %s %s"%(ws,first),
+ "preemption_rate":float(rate),"failing_miri_seeds":[int(x) for x in failing.split()],"replay":"tools/miri_engine.sh replay %s %s %s"%(ws,first,rate),
  "signature":"miri|%s|family=%d"%(cls,int(ws)%4),"log_excerpt":keep,"minimised":False,
  "note":"Miri exposes no schedule to edit; the replay is (workload seed, -Zmiri-seed)"},
  open("/verif/replays/C15-miri.json","w"),indent=1)
@@ -69,5 +79,5 @@ PY
   ok=$((ok + $(grep -c "miri-scenario: ok" "$log")))
 done
 end=$(date +%s)
-echo "{\"ran\": true, \"violation\": false, \"workloads\": $W, \"miri_seeds_per_workload\": $N, \"interpreted_runs_ok\": $ok, \"preemption_rate\": $RATE, \"wall_s\": $((end-start)), \"engine\": \"cargo +nightly miri run, -Zmiri-many-seeds, plain std::thread, no hooks installed\"}"
+echo "{\"ran\": true, \"violation\": false, \"workloads\": $W, \"miri_seeds_per_workload\": $N, \"interpreted_runs_ok\": $ok, \"preemption_rates\": \"${RATES[*]}\", \"wall_s\": $((end-start)), \"engine\": \"cargo +nightly miri run, -Zmiri-many-seeds, plain std::thread, no hooks installed\"}"
 exit 0
